@@ -375,6 +375,25 @@ def run(ctx):
                        "duplicated reaction label"), ("undeclared reactant", "undefined substrate species"),
                        ("undeclared product", "undefined product species")):
         ctx.check(frag in src, "C19.VALID", f, f._qual, what + " raises", "", "the check is gone")
+    # a duplicate is a label met before -- whichever object carries it.  A test by object identity (`found is not s`) lets the
+    # same Species / Reaction object listed twice through
+    import re as _re
+    for r_ in [x for x in ast.walk(f) if isinstance(x, ast.Raise)]:
+        msg = pyfe.src(r_.exc) if r_.exc is not None else ""
+        if "duplicat" not in msg:
+            continue
+        ats = []
+        p_ = pyfe.parent(r_)
+        c_ = r_
+        while p_ is not None and p_ is not f:
+            if isinstance(p_, ast.If):
+                ats += pya.atoms(p_.test, any(c_ is b_ for b_ in p_.body))
+            p_, c_ = pyfe.parent(p_), p_
+        ident = [a for a, pol in ats if isinstance(a, str) and _re.search(r" is (?!None\b)", a)]
+        ctx.check(not ident and any("label" in a for a, _ in ats if isinstance(a, str)), "C19.VALID", r_, f._qual,
+                  "duplicate test: %s" % "; ".join(a for a, _ in ats if isinstance(a, str))[:70], "decided on the label's value",
+                  "the duplicate test compares objects by identity (`%s`): a network that lists the same object twice has two "
+                  "entries with one label and is accepted" % (ident[0] if ident else "?"))
     init = py.fn("rdnetwork.RDNetwork.__init__")
     ctx.check(pyfe.src(init.body[-1]) == "self._assert_validity()", "C19.VALID", init, init._qual,
               "construction ends with _assert_validity()", "", "validity not asserted")
